@@ -424,7 +424,9 @@ BOUNDARY_CASES = [
     ("maxwell_electric", ("RWG", 0), ("SNC", 0)), ("maxwell_magnetic", ("RWG", 0), ("SNC", 0)),
 ]
 VARIANTS = [{}, {"segments": [1, 2]}, {"segments": [2], "include_boundary_dofs": True}, {"support_elements": [0, 3, 4], "include_boundary_dofs": True},
-            {"segments": [1, 2], "swapped_normals": [2]}]
+            {"segments": [1, 2], "swapped_normals": [2]},
+            # 5, 6: complementary segments - supports without a common element that touch along edges and in vertices (only edge / vertex adjacent singular pairs)
+            {"segments": [1], "include_boundary_dofs": True}, {"segments": [2, 3], "include_boundary_dofs": True}]
 
 
 def fmm_vs_dense(op, dk, tk, dkw, tkw, two_grids=False, order=3):
@@ -463,6 +465,7 @@ def ob_fmm_boundary(op, dk, tk, thorough):
     operator to 1e-11, for space options (whole grid, segments, support elements, boundary dofs, swapped normals) and a second test grid."""
     worst = 0.0
     combos = [(a, b, False) for a in range(len(VARIANTS)) for b in ((a,) if not thorough else range(len(VARIANTS)))] + [(0, 0, True), (1, 0, True)]
+    combos += [(5, 6, False), (6, 5, False)]
     if not thorough:
         # domain and dual space on the same grid with DIFFERENT orientation options (swapped normals on one side only)
         combos += [(0, 4, False), (4, 1, False)]
